@@ -38,7 +38,7 @@ CHECKS["C02"] = dict(
     explanation="bounded symbolic execution of LockDB.Lock/UnLock on a real small database; ownership and depth oracle on snapshots",
     assumptions=[],
     harnesses=[dict(pkg="server", name="C02_step", bound=_STEP_BOUND + "; lock flags show/update excluded", flags=["-witness", "500"],
-                    reach=["end", "unlock-owner", "unlock-one-level", "unlock-first", "cancel-wait", "unlock-refused", "relock", "relock-deeper", "relock-refused"])],
+                    reach=["end", "unlock-owner", "unlock-one-level", "unlock-first", "cancel-wait", "unlock-refused", "relock", "relock-deeper", "relock-refused", "tombstone"])],
 )
 CHECKS["C03"] = dict(
     explanation="bounded symbolic execution; reply accounting on the real MemWaiter protocols' result callbacks",
@@ -125,7 +125,7 @@ CHECKS["C16"] = dict(
     explanation="bounded symbolic execution of the real compaction (rewriteAofFiles: findRewriteAofFiles, loadRewriteAofFiles with the LockDB.HasLock filter, clearRewriteAofFiles) over the file model, which keeps a directory image after every mutation; every image is recovered by a fresh instance with the real FindAofFiles/LoadAofFiles",
     assumptions=["file model: every create / write / remove / rename / truncate is atomic and durable in program order"],
     harnesses=[
-        dict(pkg="server", name="C16_whole", bound="history: 2 holds on 2 keys, one released, rotation, optionally a third hold in the new append file; uninterrupted compaction", flags=["-witness", "1"], reach=["end"]),
+        dict(pkg="server", name="C16_whole", bound="history: 2 holds on 2 keys, one released, a re-entrant hold entered 3 times and left once (live at depth 2), rotation, optionally a further hold in the new append file; uninterrupted compaction", flags=["-witness", "1"], reach=["end"]),
         dict(pkg="server", name="C16_crash", bound="same history; crash after each individual file-system mutation of the compaction (fork over all of them)", flags=[], reach=["end", "window"], native=False),
         dict(pkg="server", name="C16_renamefail", bound="same history; the directory image of the remove-before-rename window produced without a crash (native twin of the recorded finding)", flags=["-witness", "1"], reach=[]),
     ],
@@ -185,5 +185,6 @@ CHECKS["C15"] = dict(
     harnesses=[
         dict(pkg="server", name="C15_ops", bound="every sequence of 3 operations from SET / UNSET / INCR (symbolic 64-bit) / APPEND / SHIFT (within the value) / PUSH / POP (1..2) with payloads of 1..3 symbolic bytes, carried by LOCK requests of 3 LockIds", flags=["-witness", "20"], reach=["end"]),
         dict(pkg="server", name="C15_refused", bound="a held key with a 1..3-byte value; a refused LOCK (immediate TIMEOUT) or UNLOCK (UNOWN_ERROR) carrying a SET", flags=["-witness", "1"], reach=["end"]),
+        dict(pkg="server", name="C15_unlock", bound="SET/APPEND (1..2 symbolic bytes) carried by a plain unlock, a re-entrant re-lock, an unlock of one level and an unlock of all levels of a depth-2 hold", flags=["-witness", "5"], reach=["end"]),
     ],
 )
